@@ -653,7 +653,7 @@ fn enum_grid_cases(recvs: &[Recv], r: &Recv, rng: &mut Rng, _prop: &str, iter: u
     if names.is_empty() {
         return vec![];
     }
-    const FORMS: usize = 20;
+    const FORMS: usize = 21;
     let (name, var) = names[(iter / FORMS) % names.len()].clone();
     let form = iter % FORMS;
     let e = "choice";
@@ -675,7 +675,7 @@ fn enum_grid_cases(recvs: &[Recv], r: &Recv, rng: &mut Rng, _prop: &str, iter: u
             let inner = nv(&mut ig.ids, &name, lit);
             Some(list(&mut ig.ids, e, vec![inner]))
         }
-        7 | 19 => {
+        7 | 19 | 20 => {
             // list content: what the variant wants if it is a struct / newtype variant, else `a = 1`
             let mut content = match var.map(|v| &v.body) {
                 Some(VBody::Struct(fs)) => ig.fields_items(rng, r, fs, 1),
@@ -694,6 +694,11 @@ fn enum_grid_cases(recvs: &[Recv], r: &Recv, rng: &mut Rng, _prop: &str, iter: u
                 while content.len() < 2 {
                     content.push(word(&mut ig.ids, "zz"));
                 }
+            }
+            // form 20: the same list with one more item the variant does not know: a mistake, unless the
+            // enum allows unknown fields - whatever the variant is called
+            if form == 20 {
+                content.push(nv(&mut ig.ids, "zz_not_a_field", int_lit(rng, 1)));
             }
             let mut inner = list(&mut ig.ids, &name, content);
             if form == 19 {
